@@ -216,7 +216,7 @@ func c01Twin(run *evid.Run, h *hx.History, twin int, table map[string]*stateFn, 
 			if d := obsEqual(before, after); d != "" {
 				run.Violate("C01/noop-changed", det("op", s.Op), wit(where), "%s changed the log: %s", s.Op, d)
 			}
-		case "denyappend", "joinrejected", "joinalien", "joinimpostor", "joinmislabelled", "joinrelabelled", "joinotherid":
+		case "denyappend", "joinrejected", "joinalien", "joinimpostor", "joinmislabelled", "joinrelabelled", "joinotherid", "joinforged":
 			// a refused operation must change nothing (then or later: the state-function table keeps watching)
 			before := hx.Observe(x.Logs[s.R])
 			res := x.Do(i)
